@@ -185,8 +185,10 @@ def data_config(cfg):
             # back into the pool without being parsed ("dropped": legitimate only if blank)
             gos = [e for e in R.events if e.kind == "go"]
             pieces = [(e.i, "chunk", c_) for e, c_ in zip(gos, chunks)]
+            sids = {b.get_id() for b in stream}
             for (seg, obj, ppos, data) in R.notes.get("puts", ()):
-                if data:
+                # a buffer given back to the pool counts as a dropped piece of the stream iff it holds stream bytes only
+                if data and all(z3.is_expr(b) and b.get_id() in sids for b in data):
                     pieces.append((seg - 0.5, "dropped", list(data)))
             pieces.sort(key=lambda x: x[0])
             out["dropped"] = out.get("dropped", 0) + sum(1 for p_ in pieces if p_[1] == "dropped")
